@@ -158,6 +158,10 @@ class Bus:
                         data = data[:2] + bytes([0x7e])
                 elif kind == "truncate":
                     data = data[:fault.n]
+                elif kind == "op":
+                    # a well-formed answer carrying another (valid) opcode of the command
+                    # (followed by a size byte, which the data-requesting opcodes need)
+                    data = (data + bytes(3))[:2] + bytes([fault.n]) + (data[3:] or b"\x20")
             self.log("apdu", i=idx, h=handle, apdu=bytes(apdu),
                      data=data, sw=sw, fault=repr(fault) if fault else None)
             if kind in ("timeout", "read_error"):
